@@ -521,6 +521,17 @@ func checkC04(c *km.Ctx) {
 		saveExplain, saveND, saveAs := r.Explain, r.NotDecided, r.Assume
 		checkC07(c)
 		r.Explain, r.NotDecided, r.Assume = saveExplain, saveND, saveAs
+		// likewise a CLI web-auth token is honoured only in the session of the user it names (C05's obligation on
+		// the document handler: the token's verified subject is compared with the session's user, in one
+		// representation, before anything is minted)
+		r.Remap = func(rule, fn, construct string) (string, bool) {
+			if rule == "R-C05-3" && construct == "CLI session for the token's own user" {
+				return "R-C04-2", true
+			}
+			return "", false
+		}
+		checkC05(c)
+		r.Explain, r.NotDecided, r.Assume = saveExplain, saveND, saveAs
 		r.Remap = nil
 	}
 }
